@@ -37,7 +37,10 @@ impl<'a, T> Iterator for AxisIter<'a, T> {
     }
 
     fn size_hint(&self) -> (usize, Option<usize>) {
-        let n = self.array.shape[self.axis.0];
+        let n = match self.array.shape.get(self.axis.0) {
+            Some(n) => n - self.index,
+            None => 0,
+        };
         (n, Some(n))
     }
 }
